@@ -53,12 +53,15 @@ def run(ctx):
     lib.self_test(ctx, "H1ServerTrace", "H1ServerTrace.cfg", big, change_value, name="header value differs under one fragmentation", ncases=50)
     lib.self_test(ctx, "H1ServerTrace", "H1ServerTrace.cfg", big, lose_byte, name="one body byte lost at a cut", ncases=400)
 
+    # client direction: response scripts read by the real client under fragmentations (built with C11)
+    from . import c11
+    client = c11.run_client_cuts(ctx)
     cnt = h1common.event_counts(t1 + t2, ["Deliver", "Handle"])
     tl = lib.read_lines(t1[0])
     s, e = lib.case_at(tl, 3)
     ctx.cov.update({
-        "evaluations": n1 + n2, "distinct_nontrivial": n1 + n2, "exhaustive": False,
-        "traces_validated_against_impl": n1 + n2, "scripts": n, "small_scripts_all_cuts": nsmall,
+        "evaluations": n1 + n2 + int(client.get("cases", 0)), "distinct_nontrivial": n1 + n2 + int(client.get("cases", 0)), "exhaustive": False,
+        "traces_validated_against_impl": n1 + n2 + int(client.get("cases", 0)), "client_direction": client, "scripts": n, "small_scripts_all_cuts": nsmall,
         "socket_reads": cnt["Deliver"], "handler_invocations": cnt["Handle"],
         "samples": [{"recorded_trace": [json.loads(x) for x in tl[s - 1:e]][:14]}],
         "rule": "server direction: %d small scripts (wire <= %d bytes) under EVERY 2-way cut of every head (and of whole small messages), byte-at-a-time "
@@ -66,5 +69,5 @@ def run(ctx):
                 "(request start/head end/chunk edges/end) plus seeded cuts. Each (script, segmentation) pair is one trace with its Deliver events, "
                 "validated against the cut-free expectation; every case counts as non-trivial (>=2 socket reads except the boundary-at-end ones)." % (nsmall, limit, n),
     })
-    ctx.assumptions += ["client direction (response read by the client under fragmentations) is exercised by the C11 check's scripted peer, not here",
+    ctx.assumptions += ["client direction: response scripts of H1ClientGen read by the real client under whole/every-2-way/boundary/byte-wise/seeded fragmentations, validated against H1Client (checks/c11.py run_client_cuts)",
                         "same trusted base as C01"]
